@@ -90,6 +90,7 @@ func (s *hostile) Plan(w *World) {
 		w.DelayMaxNs = 1e9
 	}
 	w.Sim.SetPoolReuse(int(t.Draw(3)))
+	w.Sim.SetPoolStale(t.Draw(2) == 1)
 	n := t.Range(20, 300)
 	if t.Draw(3) == 0 {
 		n = t.Range(5, 40)
